@@ -34,7 +34,7 @@ CHECKS = {
         design_ref='6/C18'),
     'C12': dict(
         engine='ServerStop',
-        technique='TLA+ spec ServerStop.tla (parent-side terminate(timeout=5, force) with its join time-out, the SIGTERM handler that kills `children` but not the contexts, the `finally` loop with its 1 s waits and forced kills, the context helper\'s own clean-up racing with the server\'s 1 s join, a worker start-up in progress) model-checked with TLC over every configuration of 0-4 children in 8 states x {terminate, SIGTERM, terminate with a short time-out whose SIGTERM lands inside the finally loop} x 4 start-up phases; TLC-enumerated configurations are built on a real server and stopped; /proc is scanned for former descendants (found by an environment tag, so re-parented orphans count) and the parent-side accessors are read with hang bounds; TLC judges every real execution (ServerJudge) and the real outcome is compared with the model outcome',
+        technique='TLA+ spec ServerStop.tla (parent-side terminate(timeout=5, force) with its join time-out, the SIGTERM handler that kills `children` but not the contexts, the `finally` loop with its 1 s waits and forced kills, the context helper\'s own clean-up racing with the server\'s 1 s join, a worker start-up in progress) model-checked with TLC over every configuration of 0-4 children in 10 states x {terminate, SIGTERM, terminate with a short time-out whose SIGTERM lands inside the finally loop} x 4 start-up phases; TLC-enumerated configurations are built on a real server and stopped; /proc is scanned for former descendants (found by an environment tag, so re-parented orphans count) and the parent-side accessors are read with hang bounds; TLC judges every real execution (ServerJudge) and the real outcome is compared with the model outcome',
         text='Exhaustive TLC model checking (invariants Reaped / ParentsKnow / ErrorKind / NoParentBlock at every terminal state over all 75k configurations and all interleavings of time-outs, kills and clean-ups; liveness Reaped for <= 3 children) of the proposed algorithm; the algorithm as written is rejected (a context helper killed in the middle of its clean-up). 26 (300) configurations chosen from TLC\'s enumeration for balanced coverage are built on real servers, stopped with terminate() or SIGTERM (also while a scripted client is in the middle of the handshake), and observed: server gone, no former descendant left 3 s later, wait()/is_alive()/has_error/error of every parent-side worker with hang bounds.',
         note='Trusted: TLC, /proc, the time abstraction of the model (a cooperative process that got the termination request exits before a 1 s time-out fires; the parent\'s 5 s join expires after 4 waited-out processes). The parent side of a start-up that races with the stop belongs to C20: the racing worker is a scripted client and only its reaping is judged. Real configurations are a selected sample of the enumerated space.',
         design_ref='6/C12'),
@@ -728,9 +728,9 @@ def run_c18(tier, replay):
 
 # ----------------------------------------------------------------------------- C12
 
-def _stop_cfg(maxkids, racers='Racers_all', ctxterm='TRUE', inv=(), prop=None, dupterm=None, pkill=None, clearfirst='FALSE'):
-    s = ('SPECIFICATION Spec\nCONSTANTS\n  MaxKids = %d\n  KidStates <- States_all\n  Racers <- %s\n  CtxTerm = %s\n  DupTerm = %s\n  ParentKill = %s\n  ClearFirst = %s\n'
-         % (maxkids, racers, ctxterm, dupterm or ctxterm, pkill or dupterm or ctxterm, clearfirst))
+def _stop_cfg(maxkids, racers='Racers_all', ctxterm='TRUE', inv=(), prop=None, dupterm=None, pkill=None, clearfirst='FALSE', narrow='FALSE', states='States_all'):
+    s = ('SPECIFICATION Spec\nCONSTANTS\n  MaxKids = %d\n  KidStates <- %s\n  Racers <- %s\n  CtxTerm = %s\n  DupTerm = %s\n  ParentKill = %s\n  ClearFirst = %s\n  NarrowExcept = %s\n'
+         % (maxkids, states, racers, ctxterm, dupterm or ctxterm, pkill or dupterm or ctxterm, clearfirst, narrow))
     for i in inv:
         s += 'INVARIANT %s\n' % i
     if prop:
@@ -739,14 +739,15 @@ def _stop_cfg(maxkids, racers='Racers_all', ctxterm='TRUE', inv=(), prop=None, d
 
 
 C12_INV = ('TypeOK', 'Inv_Reaped', 'Inv_ParentsKnow', 'Inv_ErrorKind', 'Inv_NoBlock')
-PERSISTENT_ONLY = ('idle', 'inctx', 'inctx-coop', 'inctx-swallow')
+PERSISTENT_ONLY = ('idle', 'inctx', 'inctx-coop', 'inctx-swallow', 'swallow-gone', 'coop-gone')
+NO_PARENT = ('starting', 'orphan', 'swallow-gone', 'coop-gone')
 
 
 def _c12_obs_key(obs, scn_kids):
     """Comparable summary: server gone, survivors, and what each real parent saw."""
     ks = []
     for k, o in zip(scn_kids, obs['kids']):
-        if k.get('parent', 'T') == 'T' and k['state'] not in ('starting', 'orphan'):
+        if k.get('parent', 'T') == 'T' and k['state'] not in NO_PARENT:
             ks.append((o['wait'], o['alive'], o['has_error'], o['error'], o['blocked']))
     return (obs['srv_dead'], obs['left'], tuple(ks))
 
@@ -779,6 +780,8 @@ def c12_select(confs, k, rng):
             f.add(('ctx-swallow+racer', racer))
         if 'orphan' in kids:
             f.add(('orphan+racer', racer, how))
+        if 'swallow-gone' in kids and len(kids) >= 2:
+            f.add(('client-gone-mix', how))
         if how == 'tshort' and 'swallow' in kids and 'coop' in kids and 'idle' in kids:
             f.add('tshort-mix')
         if how == 'tshort' and kids and kids[0] == 'swallow' and len(kids) >= 2:
@@ -801,7 +804,8 @@ def c12_select(confs, k, rng):
     # the fault classes the model singles out (a helper killed during its clean-up; an exit blocked by an
     # orphan helper after the one SIGTERM was used up) are always exercised
     for must, times in ((('inctx-swallow', 'terminate'), 1), (('orphan+racer', 'addr', 'terminate'), 1), (('two-swallow-in-ctx', 'terminate'), 1),
-                        ('tshort-mix', 2), ('tshort-swallow-first', 2), (('swallow', 'tshort'), 3)):
+                        ('tshort-mix', 2), ('tshort-swallow-first', 2), (('swallow', 'tshort'), 3),
+                        (('swallow-gone', 'terminate'), 2), (('client-gone-mix', 'terminate'), 1), (('coop-gone', 'terminate'), 1)):
         for i, f in enumerate(fs):
             if count[must] >= times:
                 break
@@ -852,38 +856,44 @@ def run_c12(tier, replay):
     #    rejection of the algorithm as written
     wit = ['W_NoKillHelper', 'W_NoJoinTimeout', 'W_NoHalfStarted', 'W_NoGracefulCtx', 'W_NoForced', 'W_NoExitHang', 'W_NoSignalUsedUp', 'W_NoHandlerInLoop']
     design = Jobs()
-    design.start('mc', lambda: tlc.run('ServerStopMC', 'ServerStop_mc.cfg', workers=8, name='stopmc', timeout=3000))
+    if tier == 'thorough':
+        design.start('mc', lambda: tlc.run('ServerStopMC', 'ServerStop_mc.cfg', workers=8, name='stopmc', timeout=3000))
+    else:      # quick: 0..3 children with every start-up phase, 0..4 children without a racing start-up
+        design.start('mc', lambda: tlc.run('ServerStopMC', cfg_text=_stop_cfg(3, 'Racers_all', inv=C12_INV), workers=6, name='stopmc', timeout=3000))
+        design.start('mc4', lambda: tlc.run('ServerStopMC', cfg_text=_stop_cfg(4, 'Racers_none', inv=C12_INV), workers=6, name='stopmc4', timeout=3000))
     design.start('live', lambda: tlc.run('ServerStopMC', 'ServerStop_live.cfg', workers=4, name='stoplive', timeout=3000))
     design.start('wits', lambda: {w: tlc.run('ServerStopMC', cfg_text=_stop_cfg(2, inv=(w,)), workers=1, name=w,
                                              must_complete=False, timeout=600) for w in wit})
     design.start('prefix', lambda: {v: tlc.run('ServerStopMC', cfg_text=_stop_cfg(2, 'Racers_all', v[0], inv=C12_INV, prop='Live_Reaped', dupterm=v[1], pkill=v[2]),
                                                workers=1, name='stopprefix%s%s%s' % v, must_complete=False, timeout=600)
                                     for v in (('FALSE', 'FALSE', 'FALSE'), ('FALSE', 'TRUE', 'TRUE'), ('TRUE', 'FALSE', 'FALSE'))})
+    design.start('narrow', lambda: tlc.run('ServerStopMC', cfg_text=_stop_cfg(2, 'Racers_all', 'TRUE', inv=C12_INV, prop='Live_Reaped', narrow='TRUE'),
+                                           workers=1, name='stopnarrow', must_complete=False, timeout=600))
     design.start('clearfirst', lambda: tlc.run('ServerStopMC', cfg_text=_stop_cfg(2, 'Racers_all', 'TRUE', inv=C12_INV, prop='Live_Reaped', clearfirst='TRUE'),
                                                workers=1, name='stopclearfirst', must_complete=False, timeout=600))
 
     # 1. TLC enumerates configurations and their outcomes (proposed algorithm and algorithm as written)
     jobs = Jobs()
     jobs.start('rec', lambda: record(logdir))
-    dumps = [(4, 'Racers_all')] if tier == 'thorough' else [(4, 'Racers_none'), (2, 'Racers_all')]
+    dumps = [(4, 'Racers_all', 'States_all')] if tier == 'thorough' else [(4, 'Racers_none', 'States_core'), (3, 'Racers_none', 'States_all'), (2, 'Racers_all', 'States_all')]
     # (CtxTerm, DupTerm, ParentKill): proposed; as written; the tree after the committed fixes; one fix at a time
     variants = (('TRUE', 'TRUE', 'TRUE'), ('FALSE', 'FALSE', 'FALSE'), ('TRUE', 'FALSE', 'TRUE'), ('TRUE', 'FALSE', 'FALSE'), ('FALSE', 'TRUE', 'TRUE'))
     if tier == 'quick':
         variants = variants[:2]
-    for mk, rc in dumps:
+    for mk, rc, st in dumps:
         for ct, dt, pk in variants:
-            jobs.start('p%d%s%s%s%s' % (mk, rc, ct, dt, pk), lambda mk=mk, rc=rc, ct=ct, dt=dt, pk=pk: tlc.run(
-                'ServerStopMC', cfg_text=_stop_cfg(mk, rc, ct, inv=('PathDump',), dupterm=dt, pkill=pk), workers=3,
+            jobs.start('p%d%s%s%s%s' % (mk, rc, ct, dt, pk), lambda mk=mk, rc=rc, st=st, ct=ct, dt=dt, pk=pk: tlc.run(
+                'ServerStopMC', cfg_text=_stop_cfg(mk, rc, ct, inv=('PathDump',), dupterm=dt, pkill=pk, states=st), workers=3,
                 name='stoppaths%d%s%s%s%s' % (mk, rc, ct, dt, pk), timeout=3000))
     res = jobs.wait()
     streams, pos, lens = res['rec']
     allowed = {'TRUE': collections.defaultdict(set), 'FALSE': collections.defaultdict(set)}
-    for mk, rc in dumps:
+    for mk, rc, st in dumps:
         for ct, dt, pk in variants:
             r = res['p%d%s%s%s%s' % (mk, rc, ct, dt, pk)]
             if r.error or not r.tags.get('PATH'):
                 raise MachineryError('path dump of ServerStop failed: %s\n%s' % (r.error, r.stdout[-1500:]))
-            ev.add_tlc('path dump MaxKids=%d %s CtxTerm=%s DupTerm=%s ParentKill=%s: configuration -> outcomes' % (mk, rc, ct, dt, pk), r)
+            ev.add_tlc('path dump MaxKids=%d %s %s CtxTerm=%s DupTerm=%s ParentKill=%s: configuration -> outcomes' % (mk, rc, st, ct, dt, pk), r)
             for kk, vv in _c12_allowed(r).items():
                 allowed['TRUE' if (ct, dt, pk) == ('TRUE', 'TRUE', 'TRUE') else 'FALSE'][kk] |= vv
     confs = sorted(allowed['TRUE'])
@@ -900,7 +910,12 @@ def run_c12(tier, replay):
     # 2. collect the design runs
     dres = design.wait()
     r = dres['mc']
-    ev.add_tlc('exhaustive: 0..4 children x 8 states x {terminate, sigterm} x 4 start-up phases (proposed algorithm)', r)
+    ev.add_tlc('exhaustive: 0..%d children x 10 states x {terminate, sigterm, tshort} x 4 start-up phases (proposed algorithm)' % (4 if tier == 'thorough' else 3), r)
+    if tier != 'thorough':
+        r4 = dres['mc4']
+        ev.add_tlc('exhaustive: 0..4 children x 10 states x {terminate, sigterm, tshort}, no racing start-up (proposed algorithm)', r4)
+        if r4.error:
+            raise MachineryError('ServerStop.tla violates its own properties: %s\n%s' % (r4.error, '\n'.join(r4.trace[:80])))
     if r.error:
         raise MachineryError('ServerStop.tla violates its own properties: %s\n%s' % (r.error, '\n'.join(r.trace[:80])))
     r = dres['live']
@@ -919,6 +934,9 @@ def run_c12(tier, replay):
     if not (dres['clearfirst'].error or '').startswith(('invariant:', 'temporal')):
         raise MachineryError('the mutant algorithm ClearFirst (finally clears `children` before reaping) is not rejected by the model checker')
     ev.cov['prefix_models_rejected']['ClearFirst=TRUE (mutant)'] = dres['clearfirst'].error
+    if not (dres['narrow'].error or '').startswith(('invariant:', 'temporal')):
+        raise MachineryError('the mutant algorithm NarrowExcept (shutdown(SHUT_RD) failure not caught) is not rejected by the model checker')
+    ev.cov['prefix_models_rejected']['NarrowExcept=TRUE (mutant)'] = dres['narrow'].error
     rp = dres['prefix'][('FALSE', 'FALSE', 'FALSE')]
 
     # 3. TLC judges every real execution with the C12 operators
